@@ -305,17 +305,52 @@ def make_script(g, rng, layout_idx=None, order=None):
                 s = " + ".join("a%d" % k for k in range(len(ts))) if ts else "0"
                 body = "if n <= 0 { return 0; } %s (%s) %% %d" % (lets, s, MODULUS)
             decls[m].append("fn %s(n: i32) -> i32 { %s }" % (name, body))
-    # getters of the constants (not items of the graph: nothing depends on them)
+    # Observers (not items of the graph: nothing depends on them).  Observation is optional in ConstOrder
+    # (Get / Call may or may not happen) but evaluation is not: a constant that nothing reads, that is read
+    # only by other unread constants, only in unreachable code, or only by functions nobody calls still
+    # has to be evaluated exactly once.  observe = all: a getter per constant and every function called;
+    # some: each with probability 1/2; none: no getter, no call.
+    observe = rng.choice(["all", "some", "some", "none"])
+    styles_used.add("observe:" + observe)
     gets, calls = [], []
+    helper = {}
     for i in range(1, n + 1):
+        watched = observe == "all" or (observe == "some" and rng.random() < 0.5)
         if g["kind"][i - 1] == "c":
             m = rng.randrange(nmod)
-            gname = "get_c%d" % i
             path = item_name(g, i) if m == home[i] else qual(layout[m], layout[home[i]], item_name(g, i), rng.choice(["abs", "rel"]))
-            decls[m].insert(rng.randrange(len(decls[m]) + 1), "fn %s() -> i32 { %s }" % (gname, path))
-            gets.append({"id": i, "name": ".".join(layout[m] + [gname])})
-        else:
+            if watched:
+                gname = "get_c%d" % i
+                decls[m].insert(rng.randrange(len(decls[m]) + 1), "fn %s() -> i32 { %s }" % (gname, path))
+                gets.append({"id": i, "name": ".".join(layout[m] + [gname])})
+                helper[i] = "getter"
+            else:
+                # possibly a mention in code that can never run (never called by the harness either)
+                h = rng.choice(["none", "none", "after_return", "after_return2", "if_false"])
+                helper[i] = h
+                if h == "after_return":
+                    decls[m].insert(rng.randrange(len(decls[m]) + 1), "fn late_c%d(x: i32) -> i32 { return x; %s }" % (i, path))
+                elif h == "after_return2":
+                    decls[m].insert(rng.randrange(len(decls[m]) + 1),
+                                    "fn late_c%d(x: i32) -> i32 { if x > 0 { return 1; } else { return 2; } keep(%s) }" % (i, path))
+                elif h == "if_false":
+                    decls[m].insert(rng.randrange(len(decls[m]) + 1), "fn never_c%d() -> i32 { if false { %s } else { 0 } }" % (i, path))
+        elif watched:
             calls.append({"id": i, "name": ".".join(layout[home[i]] + [item_name(g, i)]), "arg": FUEL})
+    # families of constants that nothing live reads (classification only, for the vacuity guard)
+    called = {c["id"] for c in calls}
+    readers = {i: {a for (a, b) in g["refs"] if b == i} for i in range(1, n + 1)}
+    isc = lambda i: g["kind"][i - 1] == "c"
+    lonely = lambda i: isc(i) and not readers[i] and helper[i] != "getter"          # no reader at all in the graph
+    for i in range(1, n + 1):
+        if not isc(i) or helper[i] == "getter":
+            continue
+        if not readers[i]:
+            styles_used.add("unread:constant" if helper[i] == "none" else "unread:unreachable-code-only")
+        elif all(lonely(r) and helper[r] == "none" for r in readers[i]):
+            styles_used.add("unread:chain")
+        elif all((not isc(r)) and r not in called and readers[r] <= {r} for r in readers[i]):
+            styles_used.add("unread:uncalled-function-only")
     files = []
     for m, p in enumerate(layout):
         children = [k for k, q in enumerate(layout) if len(q) == len(p) + 1 and q[:len(p)] == p]
@@ -647,6 +682,8 @@ def run_body(tier, ev, verd):
                     variants = [(0, None), (1, None), (2, None), (3, None)]
             for (lay, order) in variants:
                 hc, st = make_script(g, rng, lay, order)
+                if c["verdict"] != "ok":
+                    st = {x for x in st if not x.startswith("unread:")}     # nothing is evaluated there
                 styles |= st
                 cases.append((c, hc))
         nscripts += len(cases)
@@ -700,6 +737,9 @@ def run_body(tier, ev, verd):
         if f not in PATH_ONLY_FORMS:
             want_styles.add("use:fn:" + f)
     want_styles |= {"use:ctx:" + f for f in STR_FORMS}
+    # constants nothing (live) reads must occur: they still have to be evaluated exactly once
+    want_styles |= {"observe:all", "observe:some", "observe:none", "unread:constant", "unread:chain",
+                    "unread:unreachable-code-only", "unread:uncalled-function-only"}
     if want_styles - styles:
         raise vlib.ToolError("reference styles never generated: %s" % sorted(want_styles - styles))
     for k in ("ok/none", "rejected/cycle", "rejected/ctx", "rejected/cycle+ctx"):
